@@ -121,6 +121,20 @@ let handle cmd =
   | "col" -> let a = next_pt () in let b = next_pt () in let c = next_pt () in b2s (isCollinear a b c)
   | "cross" -> let a = next_pt () in let b = next_pt () in let c = next_pt () in string_of_z (crossProduct a b c)
   | "noop" -> "OK"
+  | "rectlines" ->
+    let l = next_z () in let t = next_z () in let r = next_z () in let b = next_z () in
+    let rc = { rl = l; rt = t; rr = r; rb = b } in
+    let lines = next_paths () in let os = next_paths () in
+    if rectlines_check rc lines os then "OK"
+    else if not (verts_in_rect rc os) then "FAIL vertex-outside-rectangle"
+    else if not (verts_on_lines lines os) then "FAIL vertex-off-the-input-lines"
+    else begin
+      (* name the first failing input segment *)
+      let segs = List.concat_map (fun p -> let rec go = function a :: (b :: _ as tl) -> (a, b) :: go tl | _ -> [] in go p) lines in
+      match List.find_opt (fun (a, b) -> not (rectline_check rc a b os)) segs with
+      | Some ((ax, ay), (bx, by)) -> "FAIL segment " ^ string_of_z ax ^ " " ^ string_of_z ay ^ " " ^ string_of_z bx ^ " " ^ string_of_z by
+      | None -> "FAIL unknown"
+    end
   | "simp64" -> let eps = next_q () in let c = next_int () = 1 in let p = next_path () in
     (match simplifyPath64_model eps p c with None -> "NONE" | Some r -> str_path r)
   | "simpD" -> let eps = next_q () in let c = next_int () = 1 in
